@@ -174,7 +174,8 @@ const float* splinetable_coefficients(const struct splinetable* table){
 int tablesearchcenters(const struct splinetable* table, const double* x,
                        int* centers){
 	const auto& real_table=*static_cast<const photospline::splinetable<>*>(table->data);
-	return(real_table.searchcenters(x,centers));
+	//0 on success, as documented in the header (and as in photospline v1)
+	return(real_table.searchcenters(x,centers) ? 0 : 1);
 }
 	
 double ndsplineeval(const struct splinetable* table, const double* x,
